@@ -66,7 +66,7 @@ esl_quicksort(const void *data, int n, int (*comparison)(const void *data, int o
 {
   int i;
   for (i = 0; i < n; i++) sorted_at[i] = i;
-  partition(data, comparison, sorted_at, 0, n-1);
+  if (n > 1) partition(data, comparison, sorted_at, 0, n-1);  /* n=0: nothing to sort; partition() would read sorted_at[-1] */
   return eslOK;
 }
 
